@@ -22,6 +22,7 @@ fn main() {
 fn run() {
     // silence the default panic message; panics are reported in-band as `PANIC <msg>`
     std::panic::set_hook(Box::new(|_| {}));
+    let flush_each = std::env::var_os("GEH_FLUSH").is_some();
     let stdin = std::io::stdin();
     let stdout = std::io::stdout();
     let mut out = std::io::BufWriter::new(stdout.lock());
@@ -43,6 +44,10 @@ fn run() {
             }
         };
         writeln!(out, "{}", ans).unwrap();
+        if flush_each {
+            // isolated-worker mode: an answer is on the pipe before the next request is touched
+            out.flush().unwrap();
+        }
     }
     out.flush().unwrap();
 }
